@@ -145,9 +145,25 @@ func Evaluate(c Case, res subproc.Result, phase string) (out []Finding, obs Obs,
 			add("local-read", fmt.Sprintf("%s ReadAll returned no error although %s", s, why), "corrupt local data was streamed without an error")
 		}
 	}
+	// identities are merged fast-forward only, on the commit chain: a served chain that does not
+	// contain the local head commit (whatever its version blobs say) is refused and the local ref
+	// keeps its commit
+	notFF := s == "identity" && c.Mode != "L" && !U && obs.Rel == "diverged"
+	if notFF {
+		for _, mr := range obs.Mutant {
+			if mr.Status == "new" || mr.Status == "updated" {
+				add("accepted", fmt.Sprintf("identity reported %s although the served commit chain does not contain the local head commit", mr.Status),
+					fmt.Sprintf("status %q where only a fast-forward of the commit chain may be accepted", mr.Status))
+				break
+			}
+		}
+	}
 	// local damage
 	for _, ch := range obs.Changed {
 		switch {
+		case ch.IsMutant && notFF:
+			add("damage", "local identity ref moved onto a commit chain that does not contain its former head commit",
+				fmt.Sprintf("%s: %.7s -> %.7s (not a fast-forward)", ch.Ref, ch.Old, ch.New))
 		case !ch.IsMutant:
 			add("damage", "a local ref of another entity changed", fmt.Sprintf("%s: %s -> %s", ch.Ref, ch.Old, ch.New))
 		case U:
@@ -201,6 +217,9 @@ func outcome(c Case, res subproc.Result, obs Obs) string {
 		st = append(st, m.Status)
 	}
 	o := fmt.Sprintf("%s/%s st=%v changed=%d", c.Mode, obs.Verdict.V, st, len(obs.Changed))
+	if obs.Rel != "" && strings.HasPrefix(c.M.Seed, "I") {
+		o += " chain=" + obs.Rel
+	}
 	if obs.PullErr != nil {
 		o += fmt.Sprintf(" pullerr=%v", *obs.PullErr != "")
 	}
